@@ -160,6 +160,20 @@ Proof.
 Qed.
 Print Assumptions C08_copy_refuted.
 
+(* ---- the public entry points (optional predicate) -------------------- *)
+Theorem C08_api_without_predicate : forall f nx,
+  api_filter None f = EValue /\ api_filtered None f nx = EValue /\
+  same_modulo_ids (api_copy None f nx) f /\
+  ids (api_copy None f nx) = seq nx (length (ids f)).
+Proof. exact api_without_predicate. Qed.
+Print Assumptions C08_api_without_predicate.
+
+Theorem C08_api_with_predicate : forall v f nx, NoDup (ids f) ->
+  api_filter (Some v) f = Ok (F v f) /\
+  (exists g, api_filtered (Some v) f nx = Ok g /\ api_copy (Some v) f nx = g /\ same_modulo_ids g (dbl v (F v f))).
+Proof. exact api_with_predicate. Qed.
+Print Assumptions C08_api_with_predicate.
+
 (* ---- stop -------------------------------------------------------------- *)
 (* a stop answer among the reached nodes: the stopping node s is the last call,
    and every kept node lies strictly before s in pre-order ... *)
